@@ -471,11 +471,14 @@ def assemble(unit: dict, scratch: str, passname="A") -> Assembled:
     for it in unit.get("extra_items", []):
         parts.append(it)
     parts.append("// ==== spec pack ====")
+    spec_region_start = sum(p.count("\n") + 1 for p in parts) + 1
     for sf in unit.get("spec_files", []):
         p = os.path.join(unit["dir"], sf) if not sf.startswith("common/") else os.path.join(VERIF, "specs", sf)
         parts.append(f"// ---- {sf} ----\n" + open(p).read())
     text = "\n".join(parts) + "\n"
+    spec_region_end = text.count("\n")
     asm = Assembled()
+    asm.spec_region = (spec_region_start, spec_region_end)
     asm.unit = unit
     asm.translation = tr
     lines = text.count("\n")
@@ -516,7 +519,7 @@ def assemble(unit: dict, scratch: str, passname="A") -> Assembled:
             start = lines + 1
             hdr = fn_header(f)
             emit(f"// @@fn {key}  [{f['file']}]  src_sha={f['src_sha'][:16]}")
-            emit(attrs + hdr)
+            emit(attrs + "/*@exec*/ " + hdr)
             cstart = lines + 1
             emit(contract)
             # labels
@@ -530,7 +533,7 @@ def assemble(unit: dict, scratch: str, passname="A") -> Assembled:
             if sp and sp.contract.strip() and not sp.trusted and sp.no_canary is None and unit.get("canaries", True):
                 cs = lines + 1
                 emit(f"// @@canary {key}")
-                emit(fn_header(f, name_override=f["name"] + "__canary"))
+                emit("/*@canary*/ " + fn_header(f, name_override=f["name"] + "__canary"))
                 req = strip_ensures(contract)
                 emit(req + ("\n" if req.strip() else "") + "    ensures false,")
                 emit(body)
@@ -548,6 +551,28 @@ def assemble(unit: dict, scratch: str, passname="A") -> Assembled:
             asm.labels.append((i, m.group(1)))
     asm.labels.sort()
     return asm
+
+
+def shard_text(asm: "Assembled", kind: str) -> str:
+    """same text, same line numbers, with the items NOT belonging to the shard turned into external_body.
+    kinds: all | fns (extracted functions) | lemmas (spec-pack proof fns) | canaries"""
+    if kind == "all":
+        return asm.text
+    lines = asm.text.split("\n")
+    s0, s1 = asm.spec_region
+    pat = re.compile(r"^(pub\s+)?(broadcast\s+)?proof\s+fn\s")
+    XB = "#[verifier::external_body] "
+    for i, l in enumerate(lines):
+        ln = i + 1
+        if s0 <= ln <= s1 and kind != "lemmas" and pat.match(l):
+            lines[i] = XB + l
+        elif l.startswith("/*@exec*/ ") and kind != "fns":
+            if i > 0 and "external_body" in lines[i - 1]:
+                continue
+            lines[i] = XB + l
+        elif l.startswith("/*@canary*/ ") and kind != "canaries":
+            lines[i] = XB + l
+    return "\n".join(lines)
 
 
 # ------------------------------------------------------------------------------------------------
